@@ -266,6 +266,27 @@ STATE_METHODS = {
 # the primitives mirror this text of the class (doc strings and comments aside): sha256 of the ast dump of its methods
 STATE_GUARD = "bf841c8223628ed05d38c233699386b97f8813a766c28f2f299b42cdd65e0654"
 EXTERNAL_MODULE_CALLS = {("ast", "literal_eval"): ("PyTok.literal_eval", STATE_IMPORT)}
+# --- x3: metadata (C17, C18)
+SELECTED += [
+    ("_parse_keywords", "packaging.metadata", "_parse_keywords"),
+    ("_parse_project_urls", "packaging.metadata", "_parse_project_urls"),
+    ("_Validator._process_metadata_version", "packaging.metadata", "_Validator._process_metadata_version"),
+    ("_Validator._process_name", "packaging.metadata", "_Validator._process_name"),
+    ("_Validator._process_version", "packaging.metadata", "_Validator._process_version"),
+    ("_Validator._process_summary", "packaging.metadata", "_Validator._process_summary"),
+    ("_Validator._process_dynamic", "packaging.metadata", "_Validator._process_dynamic"),
+    ("_Validator._process_provides_extra", "packaging.metadata", "_Validator._process_provides_extra"),
+    ("_Validator._process_requires_python", "packaging.metadata", "_Validator._process_requires_python"),
+    ("_Validator._process_requires_dist", "packaging.metadata", "_Validator._process_requires_dist"),
+    ("_Validator._process_license_expression", "packaging.metadata", "_Validator._process_license_expression"),
+    ("_Validator._process_license_files", "packaging.metadata", "_Validator._process_license_files"),
+]
+ORACLE_CALLS["packaging.metadata"] = {
+    "utils.canonicalize_name", "version_module.parse", "specifiers.SpecifierSet", "requirements.Requirement",
+    "licenses.canonicalize_license_expression", "pathlib.PurePosixPath", "pathlib.PureWindowsPath",
+    "PurePosixPath.is_absolute", "PureWindowsPath.is_absolute", "PureWindowsPath.as_posix", "str.lower"}
+# modules in which `s.strip()` is the Unicode-aware primitive of PyMetaRt
+UNICODE_STRIP = {"packaging.metadata": ("PyMetaRt.str_strip", "PkgModel.PyMetaRt")}
 # --- x3: licenses (C19)
 SELECTED += [("canonicalize_license_expression", "packaging.licenses", "canonicalize_license_expression")]
 # module-level tables that are regenerated as data elsewhere (`Generated/SpdxTables`): (module, name) -> run-time table name;
@@ -543,6 +564,9 @@ class Fn:
                     ok = True
                 elif isinstance(p, ast.Starred):
                     ok = True
+                elif isinstance(p, ast.Assign) and p.value is n and len(p.targets) == 1 and isinstance(p.targets[0], ast.Tuple) \
+                        and all(isinstance(x, ast.Name) for x in p.targets[0].elts):
+                    ok = True                                    # x3: unpacking reads the elements, no alias of the list
                 elif isinstance(p, (ast.If, ast.IfExp, ast.UnaryOp)):
                     ok = True                                    # truth test
                 elif isinstance(p, ast.BoolOp) and isinstance(parents.get(p), (ast.If, ast.UnaryOp)):
@@ -857,7 +881,9 @@ class Fn:
             self.emit(ind, f"catch {e} =>")
             first = True
             for h in st.handlers:
-                if h.name is not None and any(isinstance(n, ast.Name) and n.id == h.name for s in h.body for n in ast.walk(s)):
+                if h.name is not None and any(isinstance(n, ast.Name) and n.id == h.name for s in h.body
+                                              for sub in ([s] if not isinstance(s, ast.Raise) else [])     # x3: a `raise … from exc`
+                                              for n in ast.walk(sub)):                                    # keeps only the class
                     raise Unsupported("the caught exception object is used")
                 classes = self.handler_classes(h.type)
                 test = " || ".join(f'PyRt.catches "{c}" {e}' for c in classes)
@@ -1168,6 +1194,12 @@ class Fn:
             return self.attribute(e)
         if isinstance(e, ast.Call):
             return self.call(e)
+        if isinstance(e, ast.Dict):                      # x3: a dict display with distinct constant keys
+            if any(k is None for k in e.keys) or not all(isinstance(k, ast.Constant) and isinstance(k.value, (str, int)) for k in e.keys) \
+                    or len({k.value for k in e.keys}) != len(e.keys):
+                raise Unsupported("dict display with keys that are not distinct constants")
+            items = ", ".join(f"({lconst(k.value)}, {self.val(v)})" for k, v in zip(e.keys, e.values))
+            return True, f"(PyVal.dict [{items}])"
         if isinstance(e, ast.Lambda):
             raise Unsupported("lambda outside a supported helper call")
         raise Unsupported("expression " + type(e).__name__)
@@ -1196,6 +1228,15 @@ class Fn:
             return True, lconst(g[1])
         if kind == "sentinel":
             return True, g[1]
+        if kind == "other" and isinstance(g[1], (list, dict)) and not inspect.isclass(g[1]):      # x3: constant tables
+            def const(v):
+                if isinstance(v, dict):
+                    return "(PyVal.dict [" + ", ".join(f"({lconst(k)}, {lconst(x)})" for k, x in v.items()) + "])"
+                return lconst(v)
+            try:
+                return True, const(g[1])
+            except Unsupported:
+                pass
         raise Unsupported(f"global name {n} used as a value ({kind})")
 
     _bound: list = []
@@ -1453,6 +1494,9 @@ class Fn:
                 if name in self.ctx.uses_env:
                     return f"({name} {self.use_env()})"
                 return name
+        if isinstance(a, ast.Attribute) and isinstance(a.value, ast.Name) and a.value.id == "str" and "str" not in self.locals \
+                and a.attr == "lower" and "str.lower" in self.x3_oracles():             # x3: `map(str.lower, …)`
+            return f'(fun __s => PyRt.ext_call {self.use_ext()} "str.lower" [__s])'
         raise Unsupported("function argument that is neither a lambda nor a selected function")
 
     def attribute(self, e):
@@ -1838,8 +1882,24 @@ class Fn:
         return res
 
     def exc_class(self, e):
+        if isinstance(e, ast.Call) and isinstance(e.func, ast.Attribute) and isinstance(e.func.value, ast.Name) \
+                and self.owner is not None and self.node.args.args and e.func.value.id == self.node.args.args[0].arg:
+            impl = self.ctx.lookup(self.owner, e.func.attr)      # x3: `raise self._helper(...)`: the helper's return annotation
+            if inspect.isfunction(impl):
+                r = ast.parse(textwrap.dedent(inspect.getsource(impl))).body[0].returns
+                v = impl.__globals__.get(r.id) if isinstance(r, ast.Name) else None
+                if inspect.isclass(v) and issubclass(v, BaseException):
+                    return v.__name__
+            raise Unsupported("raise of the result of a method that is not annotated with an exception class")
         if isinstance(e, ast.Call):
             e = e.func
+        if isinstance(e, ast.Attribute):                          # x3: `utils.InvalidName`
+            d = _dotted(e)
+            obj = self.globals.get(d[0]) if d and d[0] not in self.locals else None
+            for part in (d or [])[1:]:
+                obj = getattr(obj, part, None)
+            if inspect.isclass(obj) and issubclass(obj, BaseException):
+                return obj.__name__
         if isinstance(e, ast.Name):
             g = self.resolve_global(e.id)
             if g[0] == "class" and issubclass(g[1], BaseException):
@@ -2031,7 +2091,7 @@ class Fn:
                         ok = True
                     elif isinstance(p_, ast.Call) and isinstance(p_.func, ast.Name) and p_.func.id in (CONSUMERS | {"enumerate"}) and n in p_.args:
                         ok = True
-                    elif isinstance(p_, ast.Return) and m == own_name:
+                    elif isinstance(p_, ast.Return) and (m == own_name or m not in params):
                         ok = True
                     elif isinstance(p_, ast.Call) and self.x3_ipf_arg(p_) is n:
                         ok = True
@@ -2221,6 +2281,12 @@ class Fn:
         return False
 
     def x3_expr_stmt(self, e, ind):
+        if isinstance(e, ast.Call) and isinstance(e.func, ast.Attribute):
+            d = _dotted(e.func)
+            if d and d[0] not in self.locals and ".".join(d) in self.x3_oracles():
+                p, c = self.expr(e)              # an external function called for its exceptions
+                self.emit(ind, f"let _ ← {c}")
+                return True
         if isinstance(e, ast.Call) and isinstance(e.func, ast.Attribute) and isinstance(e.func.value, ast.Name) \
                 and self.state_param is not None and e.func.value.id == self.state_param:
             p, c = self.expr(e)                  # a tokenizer method called for its effect
@@ -2363,6 +2429,18 @@ class Fn:
         self.ctx.deps.setdefault(self.ctx.current, set()).add(name)
         return name
 
+    def x3_ext_class(self, e):
+        """the class of another library an expression is an instance of, when it is a constructor call through an oracle"""
+        if isinstance(e, ast.Call) and isinstance(e.func, ast.Attribute):
+            d = _dotted(e.func)
+            if d and d[0] not in self.locals and ".".join(d) in self.x3_oracles():
+                obj = self.globals.get(d[0])
+                for part in d[1:]:
+                    obj = getattr(obj, part, None)
+                if inspect.isclass(obj):
+                    return obj.__name__
+        return None
+
     def x3_table(self, e):
         """a module-level table that is regenerated as data: its run-time name, else None"""
         if isinstance(e, ast.Name) and e.id not in self.locals and e.id not in self.bound_stack() \
@@ -2379,6 +2457,8 @@ class Fn:
         if t is not None:
             return f'PyLic.tbl_has "{t}" {lv}'
         if self.x3_is_dict_expr(r):
+            return f"PyRt.dict_contains {self.val(r)} {lv}"
+        if isinstance(r, ast.Name) and r.id not in self.locals and r.id not in self.bound_stack() and isinstance(self.globals.get(r.id), dict):
             return f"PyRt.dict_contains {self.val(r)} {lv}"
         return None
 
@@ -2423,6 +2503,39 @@ class Fn:
                 fn, imp = MATCH_PATTERNS[(pat.pattern, pat.flags)]
                 self.ctx.imports.add(imp)
                 return False, f"{fn} {self.val(e.args[0])}"
+        if isinstance(f, ast.Attribute) and f.attr == "strip" and not e.args and not kws and self.pyfunc.__module__ in UNICODE_STRIP:
+            fn, imp = UNICODE_STRIP[self.pyfunc.__module__]
+            self.ctx.imports.add(imp)
+            return False, f"{fn} {self.val(f.value)}"
+        if isinstance(f, ast.Attribute) and f.attr == "lower" and not e.args and not kws and "str.lower" in oracles:
+            return False, f'PyRt.ext_call {self.use_ext()} "str.lower" [{self.val(f.value)}]'
+        if isinstance(f, ast.Attribute):
+            d = _dotted(f)
+            if d and d[0] not in self.locals and d[0] not in self.bound_stack() and ".".join(d) in oracles \
+                    and not any(isinstance(a, ast.Starred) for a in e.args):
+                obj = self.globals.get(d[0])
+                for part in d[1:]:
+                    obj = getattr(obj, part, None)
+                if inspect.isclass(obj) and (obj.__module__ or "").startswith("packaging") and inspect.isfunction(self.ctx.lookup(obj, "__init__")):
+                    args = self.bind_args(self.ctx.lookup(obj, "__init__"), e.args, kws, skip_self=True)
+                elif inspect.isclass(obj):
+                    args = [self.val(a) for a in e.args]          # a class of another library: positional arguments as given
+                    if kws:
+                        raise Unsupported("keyword arguments of an external constructor")
+                elif callable(obj):
+                    try:
+                        args = self.bind_args(obj, e.args, kws)
+                    except (TypeError, ValueError):
+                        raise Unsupported("signature of an external function")
+                else:
+                    raise Unsupported("oracle name that is not callable")
+                return False, f'PyRt.ext_call {self.use_ext()} "{".".join(d)}" [' + ", ".join(args) + "]"
+            xc = self.x3_ext_class(f.value)
+            if xc is not None:
+                key = f"{xc}.{f.attr}"
+                if key not in oracles or kws:
+                    raise Unsupported(f"method .{f.attr} of an external {xc}")
+                return False, f'PyRt.ext_call {self.use_ext()} "{key}" [' + ", ".join([self.val(f.value)] + [self.val(a) for a in e.args]) + "]"
         if isinstance(f, ast.Name) and f.id == "zip" and f.id not in self.locals and len(e.args) == 2 and not kws:
             return False, f"PyRt.zip2 {self.val(e.args[0])} {self.val(e.args[1])}"
         if isinstance(f, ast.Attribute) and isinstance(f.value, ast.Name) and f.value.id == self.state_param \
